@@ -389,7 +389,7 @@ INC = """<%page args="y"/>i${y}"""
 
 
 class RenderWorld:
-    def __init__(self, s, fine):
+    def __init__(self, s, fine, lru=False):
         from mako import codegen, lookup as mlookup, cache as mcache, lexer as mlexer
 
         self.s = s
@@ -405,6 +405,21 @@ class RenderWorld:
         cc.SCHED = s
         self.cc = cc
         mlexer._regexp_cache.clear()
+        self.files = []
+        if lru:
+            # a bounded lookup over files (its template cache and its URI cache are both LRU caches of size 1:
+            # every render evicts and reloads); same templates, same decoys
+            root = os.path.join(_proc_root(), "rl")
+            os.makedirs(os.path.join(root, "sub"), exist_ok=True)
+            for name, text in (("base.html", "DECOY"), ("ns.html", "DECOY"), ("inc.html", "DECOY"), ("sub/base.html", BASE), ("sub/ns.html", NS), ("sub/inc.html", INC), ("sub/main.html", MAIN)):
+                pth = os.path.join(root, name)
+                with open(pth, "w") as f:
+                    f.write(text)
+                os.utime(pth, (990, 990))
+                self.files.append(pth)
+            self.lookup = mlookup.TemplateLookup(directories=[root], collection_size=1, cache_impl="c16dict", cache_args={"type": "memory", "region": "default"})
+            self.lookup._mutex = s.lock()
+            return
         self.lookup = mlookup.TemplateLookup(cache_impl="c16dict", cache_args={"type": "memory", "region": "default"})
         self.lookup._mutex = s.lock()
         # the templates live in a sub-directory and name each other relatively, so that URI adjustment matters;
@@ -420,24 +435,30 @@ class RenderWorld:
     def close(self):
         self.sm.restore()
         self.cc.SCHED = None
+        for pth in self.files:
+            try:
+                os.unlink(pth)
+            except OSError:
+                pass
 
 
-def solo_outputs():
+def solo_outputs(lru=False):
     """each context alone, each on a fresh world (so that first-use initialisation is included)"""
     if _PROC.get("pid") != os.getpid():
         _PROC.clear()
         _PROC["pid"] = os.getpid()
-    if "solo" not in _PROC:
+    key = "solo-lru" if lru else "solo"
+    if key not in _PROC:
         solos = []
         for x in ("0", "1", "2"):
             s2 = sched.Scheduler()
-            w2 = RenderWorld(s2, False)
+            w2 = RenderWorld(s2, False, lru=lru)
             try:
                 solos.append(w2.lookup.get_template("/sub/main.html").render(x=x))
             finally:
                 w2.close()
-        _PROC["solo"] = solos
-    return _PROC["solo"]
+        _PROC[key] = solos
+    return _PROC[key]
 
 
 def h_render(w, nthreads):
@@ -563,7 +584,7 @@ def h_compile_calls(w, nthreads):
     return [mk(i) for i in range(nthreads)], finish
 
 
-RENDER_HARNESSES = {"render": h_render, "render-rt": h_render, "compile": h_compile, "compile-blocks": h_compile_blocks, "compile-calls": h_compile_calls, "compile-calls-wide": h_compile_calls}
+RENDER_HARNESSES = {"render": h_render, "render-rt": h_render, "render-lru": h_render, "compile": h_compile, "compile-blocks": h_compile_blocks, "compile-calls": h_compile_calls, "compile-calls-wide": h_compile_calls}
 
 
 # --------------------------------------------------------------------------
@@ -581,6 +602,8 @@ def trace_prefixes(kind):
             os.path.join(repo, "mako", "lookup.py"),
             "_sub_main_html", "_sub_base_html", "_sub_ns_html", "_sub_inc_html",
         )
+    if kind == "render-lru":
+        return (os.path.join(repo, "mako", "lookup.py"), os.path.join(repo, "mako", "util.py"))
     if kind == "render-rt":
         # the runtime's own shared state only (namespaces, caches, URI and lookup caches), for a deeper preemption bound
         return tuple(os.path.join(repo, "mako", f) for f in ("cache.py", "lookup.py", "util.py"))
@@ -607,7 +630,9 @@ def run_one(spec, prefix, record=False):
     s = sched.Scheduler(prefix, trace_files=trace_prefixes(name) if fine else None, record_trace=record, trace_names=names,
                         trace_calls=name.startswith("compile-calls"), horizon=200000 if name.startswith("compile-calls") else 20000)
     if name in RENDER_HARNESSES:
-        if name in ("render", "render-rt"):
+        if name == "render-lru":
+            solos = solo_outputs(lru=True)
+        elif name in ("render", "render-rt"):
             solos = solo_outputs()
         elif name == "compile-blocks":
             solos = compile_solo(BLOCK_TEXTS, "bsolo")
@@ -615,7 +640,7 @@ def run_one(spec, prefix, record=False):
             solos = compile_solo(EXPR_TEXTS, "esolo")
         else:
             solos = compile_solo()
-        w = RenderWorld(s, fine)
+        w = RenderWorld(s, fine, lru=(name == "render-lru"))
         if name in ("compile", "compile-blocks") and not fine:
             from mako import lexer as mlexer
 
@@ -667,6 +692,7 @@ def specs(tier):
             out.append((h, 3, True, 1))
     out.append(("render", 2, False, None))
     out.append(("render", 2, True, 1))  # ~830 line-level points: bound 2 would be ~10^5 executions of 50 ms each
+    out.append(("render-lru", 2, True, 1))  # bounded lookup: the unlocked LRU caches (templates, URIs) under concurrent renders
     out.append(("compile", 2, False, 1 if q else 2))
     out.append(("compile-blocks", 2, True, 1 if q else 2))
     out.append(("compile-calls", 2, True, 1))
@@ -676,6 +702,7 @@ def specs(tier):
     if not q:
         out.append(("compile", 2, True, 1))
         out.append(("render", 3, True, 1))
+        out.append(("render-lru", 3, True, 1))
         out.append(("render-rt", 2, True, 2))  # lookup / cache / util lines only: a deeper bound is affordable
         out.append(("render-rt", 3, True, 2))
         out.append(("compile", 3, False, 1))
